@@ -951,6 +951,25 @@ fn persist_cases(rep: &mut Report, sc: &Scratch, pack: &[u8]) {
                         }
                         read_back(rep, &ip, &format!("{op} through {via}"));
                     }
+                    // independent of the paths that were reported: what is in the directory now
+                    let now = dir_listing(&dir);
+                    let packs: Vec<&String> = now.iter().filter(|f| f.starts_with("pack-") && f.ends_with(".pack")).collect();
+                    let missing_idx: Vec<String> = packs
+                        .iter()
+                        .filter(|f| !dir.join(f.as_str()).with_extension("idx").is_file())
+                        .map(|f| f.to_string())
+                        .collect();
+                    if packs.is_empty() || !missing_idx.is_empty() {
+                        rep.oracle_failure(
+                            "persist: after Ok the directory does not hold the pack together with its index",
+                            &format!("{via}, directory before: {before:?}, directory now: {now:?}, reported index_path {:?} data_path {:?}", o.index_path, o.data_path),
+                            &op,
+                        );
+                    } else {
+                        for f in &packs {
+                            read_back(rep, &dir.join(f.as_str()).with_extension("idx"), &format!("{op} through {via} (index found in the directory)"));
+                        }
+                    }
                     if have_pack != o.keep_path.is_none() {
                         rep.oracle_failure(
                             "persist: a .keep file is reported for a pack that existed (or none for a new one)",
